@@ -69,6 +69,8 @@ class Battery:
             self.fired = True
             if f.get("exc") == "KeyboardInterrupt":
                 raise KeyboardInterrupt()
+            if f.get("exc") == "SystemExit":
+                raise SystemExit(3)
             raise PeerFault("injected failure at call %d (%s)" % (self.calls, kind))
 
     def probe(self):
@@ -105,6 +107,9 @@ def run_batt_life(sess, sysobj, op, passed):
     except KeyboardInterrupt:
         sess.stats["fault_fired:peer_keyboard_interrupt"] += 1
         raise PeerFault("KeyboardInterrupt")
+    except SystemExit:
+        sess.stats["fault_fired:peer_system_exit"] += 1
+        raise PeerFault("SystemExit")
     finally:
         sess.w.clock.behaviour = old
         sess.stats["batt_steps"] += max(0, len(bat.log) - 1)
